@@ -39,6 +39,10 @@ Traceback (most recent call last):
 InvalidChecksum: ...
 >>> from_natid('gb', 'BYXJL75')
 'GB00BYXJL758'
+>>> from_natid('us', '*0141V268')  # only letters and digits can be part of an ISIN
+Traceback (most recent call last):
+    ...
+InvalidFormat: ...
 """
 
 from stdnum.exceptions import *
@@ -130,4 +134,6 @@ def is_valid(number):
 def from_natid(country_code, number):
     """Generate an ISIN from a national security identifier."""
     number = country_code.upper() + compact(number).zfill(9)
+    if not all(x in _alphabet for x in number):
+        raise InvalidFormat()
     return number + calc_check_digit(number)
